@@ -108,6 +108,8 @@ func DrawConfig(seed uint64, profile string) Config {
 	}
 	if hasByz && cfg.N >= 3 && r.Chance(1, 3) {
 		drawSplitAttack(&cfg, r)
+	} else if cfg.N >= 4 && r.Chance(1, 4) {
+		drawLaggard(&cfg, r)
 	}
 	cfg.ValChanges = r.Chance(1, 4)
 	cfg.Suffix = true
